@@ -20,7 +20,7 @@ for d in sorted(glob.glob(os.path.join(V, "seeded", "*", ""))):
             if mm and not cls:
                 cls = mm.group(1)
     rows.append((os.path.basename(d[:-1]), m["property"], "yes" if m.get("baseline_with_change", "").startswith("972 passed") else "NO",
-                 "%s/%s" % (m.get("demo_on_clean_tree_exit"), m.get("demo_with_change_exit")), ",".join(m.get("caught_by", [])) or ("n/a: does not break the stated property" if m.get("does_not_break_stated_property") else "MISSED"), cls[:60], first[:150]))
+                 "%s/%s" % (m.get("demo_on_clean_tree_exit"), m.get("demo_with_change_exit")), ",".join(m.get("caught_by", [])) or (("n/a for this property; caught by " + ",".join(m["caught_by_other_property"])) if m.get("caught_by_other_property") else "n/a: does not break the stated property" if m.get("does_not_break_stated_property") else "MISSED"), cls[:60], first[:150]))
 with open(os.path.join(V, "seeded", "INDEX.md"), "w") as f:
     f.write("# Seeded changes (independent sub-agents; each confirmed in a scratch worktree by tools/run_seeded.py)\n\n")
     f.write("| id | breaks | baseline passes with change | demo exit clean/changed | caught by (quick tier) | violation class | change |\n|---|---|---|---|---|---|---|\n")
